@@ -259,7 +259,7 @@ def run_module(m, budget, oracle):
                 res["exec_errors"]["budget"] = res["exec_errors"].get("budget", 0) + 1
             except RecursionError:
                 res["exec_errors"]["recursion"] = res["exec_errors"].get("recursion", 0) + 1
-            except Exception as ex:
+            except BaseException as ex:  # generated programs raise BaseException subclasses on purpose (Halt, KeyboardInterrupt, groups)
                 nm = type(ex).__name__
                 res["exec_errors"][nm] = res["exec_errors"].get(nm, 0) + 1
             finally:
